@@ -583,6 +583,42 @@ def fam_overflow(rnd, i, extra=(6,)):
     return steps
 
 
+def fam_ovfstall(rnd, i):
+    """Overflow, then the consumer drains Events only and never looks at Errors while control calls are made."""
+    w = "w1"
+    k = 16384 + rnd.choice([6, 50])
+    ctl = rnd.sample(["watchlist", "add", "remove"], 2)
+    steps = [fs("mkdir", ("d1",)), fs("create", ("d1", "n1")), new(w, rnd.choice([0, 0, 8])), call(w, "add", ("d1",), "rel"),
+             fs("chmod", ("d1", "n1")), {"s": "rep", "k": k, "pat": [fs("create", ("d1", "x%"))]},
+             {"s": "drain", "w": w, "only": "ev"}, obs(w)]
+    for c in ctl:
+        if c == "watchlist":
+            steps.append(call(w, "watchlist"))
+        elif c == "add":
+            steps.append(call(w, "add", ("d1", "n1"), "rel"))
+        else:
+            steps.append(call(w, "remove", ("d1",), "rel"))
+    if rnd.random() < 0.5:
+        steps += [call(w, "close"), drain(w), obs(w)]
+    else:
+        steps += [drain(w), call(w, "watchlist"), obs(w), call(w, "close"), drain(w), obs(w)]
+    return steps
+
+
+def fam_ovflate(rnd, i):
+    """Overflow, partial catch-up (the reader reads again, the queue has room), then new activity that is
+    queued behind the overflow marker, then drain: the late events must arrive after ErrEventOverflow."""
+    w = "w1"
+    k = 16384 + rnd.choice([6, 300, 2000])
+    steps = [fs("mkdir", ("d1",)), fs("create", ("d1", "n1")), new(w, 0), call(w, "add", ("d1",), "rel"),
+             fs("chmod", ("d1", "n1")), {"s": "rep", "k": k, "pat": [fs("chmod", ("d1", "n1")), fs("write", ("d1", "n1"))]}, obs(w)]
+    steps.append({"s": "drain", "w": w, "only": "ev", "max": rnd.choice([3, 40, 2500])})
+    steps += [obs(w), fs("chmod", ("d1",)), fs("create", ("d1", "late1")), fs("create", ("d1", "late2")), fs("unlink", ("d1", "late1")),
+              drain(w), call(w, "watchlist"), obs(w), fs("create", ("d1", "n2")), call(w, "add", ("d1", "n2"), "rel"), fs("chmod", ("d1", "n2")),
+              call(w, "remove", ("d1", "n2"), "rel"), drain(w), obs(w), call(w, "close"), drain(w), obs(w)]
+    return steps
+
+
 def fam_moves(rnd, i, depth=30):
     """Rename correlation: moves within / between watched directories, in from and out to
     unwatched places (leaving unmatched cookies behind), plain creates and hard links in between."""
@@ -895,7 +931,7 @@ FAMS = {
     "rand": fam_rand, "burst": fam_burst, "lag": fam_lag, "close": fam_close, "wsrand": fam_watchset_random,
     "cycle": fam_cycle, "newclose": fam_newclose, "overflow": fam_overflow, "moves": fam_moves, "multi": fam_multi,
     "absorb": fam_absorb, "withops": fam_withops, "repoint": fam_repoint, "stall": fam_stall, "spell": fam_spell,
-    "endwatch": fam_endwatch, "paced": fam_paced,
+    "endwatch": fam_endwatch, "paced": fam_paced, "ovfstall": fam_ovfstall, "ovflate": fam_ovflate,
 }
 
 
